@@ -68,22 +68,28 @@ def check_permutations(run, ex, jnp, rng, tier):
         u = zoo.white_noise(rng, C, D, N)
         if name in zoo.ODD_ORDER_LINEAR or registry.has_order(registry.stepper_classes()[name]):
             u = zoo.nyquist_free(ex, jnp, u)       # odd-order symbols / first-derivative terms: the property's Nyquist caveat
-        base = np.asarray(st(jnp.asarray(u)))
-        if not np.all(np.isfinite(base)):
+        states = [u]
+        if name not in zoo.ODD_ORDER_LINEAR:
+            # even-order linear part: the multiplier is real on the Nyquist lines and the nonlinear terms never see the Nyquist mode (it is
+            # removed by the dealiasing before any derivative is taken), so the permutation symmetry holds for arbitrary states
+            states.append(zoo.white_noise(rng, C, D, N))
+        for u in states:
+          base = np.asarray(st(jnp.asarray(u)))
+          if not np.all(np.isfinite(base)):
             continue
-        sign = -1.0 if name in zoo.PSEUDOSCALAR else 1.0
-        for perm in itertools.permutations(range(D)):
-            if perm == tuple(range(D)):
-                continue
-            par = 1.0
-            if name in zoo.PSEUDOSCALAR:
-                par = -1.0            # D = 2: the only non-trivial permutation is the swap (odd)
-            run.case(("perm", name, D, N, str(c["kw"]), c["order"], perm))
-            got = np.asarray(st(jnp.asarray(par * permute_state(u, perm, vector))))
-            want = par * permute_state(base, perm, vector)
-            if rel(got, want) > 1e-10:
-                run.violation({"kind": "permutation", "cls": name, "D": D, "N": N, "order": c["order"], "kw": str(c["kw"])},
-                              {"perm": list(perm), "err": rel(got, want)})
+          sign = -1.0 if name in zoo.PSEUDOSCALAR else 1.0
+          for perm in itertools.permutations(range(D)):
+              if perm == tuple(range(D)):
+                  continue
+              par = 1.0
+              if name in zoo.PSEUDOSCALAR:
+                  par = -1.0            # D = 2: the only non-trivial permutation is the swap (odd)
+              run.case(("perm", name, D, N, str(c["kw"]), c["order"], perm))
+              got = np.asarray(st(jnp.asarray(par * permute_state(u, perm, vector))))
+              want = par * permute_state(base, perm, vector)
+              if rel(got, want) > 1e-10:
+                  run.violation({"kind": "permutation", "cls": name, "D": D, "N": N, "order": c["order"], "kw": str(c["kw"])},
+                                {"perm": list(perm), "err": rel(got, want)})
         del sign
 
 
